@@ -42,7 +42,7 @@ CHECKS = {
             "Each history starts from the import-time state via fork (no knowledge of the state's names needed). ANTLR caches treated as transparent (cold pristine vs warm histories agree).",
             "DESIGN.md section 5 C12"),
     "C13": ("model_checking", "explicit-state BFS over API event sequences on real program objects (replay-from-scratch), invariant checked in every state",
-            "13 programs/templates chosen for aliasing potential x 22 events (dumps, attribute reads, to_DiGraph, two template calls and a repeated one, match_template, operations on instances, 8 kinds of mutation of instances); BFS to depth 3 (thorough 5) with de-duplication on the tuple of digests; in every state: the program's digest (serialisation + deep content incl. optional keys) is unchanged, an instance changes only by mutations addressed to it, equal calls give equal instances. Also: the caller's own ndarray passed as an array-valued parameter (same object at every call, modified by the caller afterwards); to_DiGraph as a third observation and edits of a returned graph as an event; the digest reads the attributes before and after serialising.",
+            "13 programs/templates chosen for aliasing potential x 22 events (dumps, attribute reads, to_DiGraph, two template calls and a repeated one, match_template, operations on instances, 8 kinds of mutation of instances); BFS to depth 3 (thorough 4) with de-duplication on the tuple of digests; in every state: the program's digest (serialisation + deep content incl. optional keys) is unchanged, an instance changes only by mutations addressed to it, equal calls give equal instances. Also: the caller's own ndarray passed as an array-valued parameter (same object at every call, modified by the caller afterwards); to_DiGraph as a third observation and edits of a returned graph as an event; the digest reads the attributes before and after serialising.",
             "Digest observes programs through public attributes and dumps(). Mutations of the returned graph are not events.",
             "DESIGN.md section 5 C13"),
     "C01": ("exploration", "bounded-exhaustive enumeration of valid scripts from the shared alphabet; round trip iterated to a text fixpoint",
@@ -50,7 +50,7 @@ CHECKS = {
             "Trusted: the equivalence (bbv/props/equiv.py). Variables of non-tdm programs and presence of an args key are not compared.",
             "DESIGN.md section 5 C01"),
     "C08": ("model_checking", "stateless schedule exploration: every combination of symbol-set iteration orders (forced-prefix reruns) per enumerated case, vs reference model",
-            "Cases = 22 (thorough 24) polynomial/rational expression shapes (incl. tiny, many-digit and huge coefficients, repeated registers) x every ordered choice of distinct registers from {q0,q1,q3,q10} (thorough adds q2, q007) x {positional, keyword, both} x {plain, after a measurement, inside a for-loop}. For every case every resolution of the intercepted nondeterminism (iteration order of free_symbols at every site reached from blackbird code) is executed; in each the transform must list exactly the written registers and its function, applied in the listed order, must compute the written formula. Also: declared variables whose names contain register look-alikes; several register arguments over different register sets in one statement; post-selected measurements of the same modes before the statement; scaled factored differences raised to the 5th / 7th power evaluated next to their root.",
+            "Cases = 22 (thorough 24) polynomial/rational expression shapes (incl. tiny, many-digit and huge coefficients, repeated registers) x every ordered choice of distinct registers from {q0,q1,q3,q10} (thorough adds q007) x {positional, keyword, both} x {plain, after a measurement, inside a for-loop}. For every case every resolution of the intercepted nondeterminism (iteration order of free_symbols at every site reached from blackbird code) is executed; in each the transform must list exactly the written registers and its function, applied in the listed order, must compute the written formula. Also: declared variables whose names contain register look-alikes; several register arguments over different register sets in one statement; post-selected measurements of the same modes before the statement; scaled factored differences raised to the 5th / 7th power evaluated next to their root.",
             "The seam is in SymPy (Basic.free_symbols), installed by the harness; sets of ints are deterministic in CPython and not choice points.",
             "DESIGN.md section 5 C08"),
     "C19": ("model_checking", "stateless schedule exploration of symbol-set iteration orders per pipeline stage + one real interpreter per PYTHONHASHSEED of a seed cover",
